@@ -49,6 +49,7 @@ ASSUMPTIONS = ['the copy() variant is taken from a freshly built pipeline that i
                'the adversary acts between next() calls / epochs of the consumer thread']
 
 RANDOM_OPS = ('reshuffle', 'local_shuffle', 'apply')
+KNOWN_TILED = 'ReShuffleDataset:copy_of_dataset_containing_one_reshuffle_object_twice'
 
 
 def gen_desc(rng):
@@ -63,7 +64,10 @@ def gen_desc(rng):
         for j in range(k):
             for _try in range(8):
                 r = rng.random()
-                if r < 0.45:
+                if have_random and r > 0.9 and a.sized:
+                    # the same (random) dataset object occurs twice in one concatenation
+                    sts = [{'op': 'tile', 'reps': 2}]
+                elif r < 0.45:
                     op = rng.choice(['reshuffle', 'reshuffle', 'local_shuffle',
                                      'shuffle', 'apply'])
                     st = {'op': op, 'seed': rng.randrange(1 << 16)}
@@ -72,7 +76,7 @@ def gen_desc(rng):
                     if op == 'apply' and rng.random() < 0.5:
                         st['inner'] = 'reshuffle'   # the apply function adds a random stage
                     sts = [st]
-                else:
+                elif not (have_random and r > 0.9 and a.sized):
                     sts = pargen.gen_upstream_stage(rng, a, 'u%d' % (j + 1), True)
                     if sts[0]['op'] == 'cache':
                         continue
@@ -437,9 +441,13 @@ def run(case):
                         continue
                     for e in range(E):
                         if vs[name].outs[e] != ref[e]:
+                            sig_ = 'order_not_reproduced:%s:%s' % (name, tag)
+                            ops_ = [s_['op'] for s_ in desc['stages']]
+                            if name == 'C' and 'reshuffle' in ops_ and \
+                                    'tile' in ops_[ops_.index('reshuffle'):]:
+                                sig_ = KNOWN_TILED
                             violations.append(hist.viol(
-                                'order_not_reproduced',
-                                'order_not_reproduced:%s:%s' % (name, tag),
+                                'order_not_reproduced', sig_,
                                 'epoch %d of variant %s differs from the equal-seeded '
                                 'build A: %s vs %s' % (
                                     e, name,
